@@ -47,7 +47,7 @@ for d in sorted(glob.glob(os.path.join(V, "seeded", "C*-*"))):
     final = ""
     if os.path.exists(fp):
         fm = json.load(open(fp))
-        final = ", ".join(fm["detected_by"]) or "missed by its own check"
+        final = ", ".join(fm["detected_by"]) or ("thorough tier only" if fm.get("thorough_tier", {}).get("detected") else "missed by its own check")
     det = ', '.join(m['detected_by']) or ('thorough tier only' if m.get('thorough_tier', {}).get('detected') else '**missed**')
     out.append(f"| {m['name']} | {'yes' if m['confirmed'] else 'NO'} | {det} | {before} | {final} | {', '.join(sigs)[:160]} | {need.replace('|', '/')} |\n")
 text = "".join(out)
